@@ -184,6 +184,18 @@ func factsFp(repo string, o *out) {
 			return true
 		})
 	}
+	// is the statusOnError after a failing command skipped in dry mode: 1 = the call in the range-t.Cmds loop
+	// sits under an if mentioning Dry, 0 = it does not, 99 = no such call
+	cmdErrDry := 99
+	if rt != nil {
+		ast.Inspect(rt.Body, func(n ast.Node) bool {
+			if rs, ok := n.(*ast.RangeStmt); ok && exprStr(rs.X) == "t.Cmds" {
+				cmdErrDry = fpGuardedBy(rs.Body, "statusOnError", "Dry")
+			}
+			return true
+		})
+	}
+	o.def("fp_cmd_error_dry_code", "nat", fmt.Sprint(cmdErrDry))
 	o.def("fp_prompt_loop_found", "bool", fpBool(promptLoop))
 	o.def("fp_prompt_rolls_back", "bool", fpBool(promptRB))
 	o.def("fp_cmd_error_rolls_back", "bool", fpBool(cmdErrRB))
